@@ -7,6 +7,7 @@ package PKG
 import (
 	"context"
 	"errors"
+	"sync"
 
 	"github.com/ipfs/go-datastore"
 	contextds "github.com/ipfs/go-datastore/context"
@@ -25,6 +26,7 @@ type zzOp struct {
 // zzMemDS is the datastore contract: every direct Put/Delete and every Batch.Commit is atomic and is
 // recorded as one entry of the commit log.
 type zzMemDS struct {
+	mu         sync.Mutex // a datastore is safe for concurrent use: natively the parallel deleter's workers call it at once
 	m          map[string][]byte
 	log        [][]zzOp
 	writes     int // direct writes and commits attempted
@@ -61,11 +63,15 @@ func (d *zzMemDS) gate(what string) {
 }
 
 func (d *zzMemDS) failNow() bool {
+	d.mu.Lock()
+	defer d.mu.Unlock()
 	d.writes++
 	return d.failFrom > 0 && d.writes >= d.failFrom && d.writes < d.failFrom+d.failN
 }
 
 func (d *zzMemDS) apply(ops []zzOp) {
+	d.mu.Lock()
+	defer d.mu.Unlock()
 	for _, op := range ops {
 		if op.del {
 			delete(d.m, op.key)
@@ -78,8 +84,10 @@ func (d *zzMemDS) apply(ops []zzOp) {
 
 func (d *zzMemDS) Get(_ context.Context, k datastore.Key) ([]byte, error) {
 	d.gate("ds.get:" + k.String())
+	d.mu.Lock()
 	d.reads++
 	v, ok := d.m[k.String()]
+	d.mu.Unlock()
 	if d.gatesAfter {
 		// a second scheduling point between the read and the caller seeing its result
 		d.gate("ds.got:" + k.String())
@@ -92,12 +100,16 @@ func (d *zzMemDS) Get(_ context.Context, k datastore.Key) ([]byte, error) {
 
 func (d *zzMemDS) Has(_ context.Context, k datastore.Key) (bool, error) {
 	d.gate("ds.has:" + k.String())
+	d.mu.Lock()
 	_, ok := d.m[k.String()]
+	d.mu.Unlock()
 	return ok, nil
 }
 
 func (d *zzMemDS) GetSize(_ context.Context, k datastore.Key) (int, error) {
+	d.mu.Lock()
 	v, ok := d.m[k.String()]
+	d.mu.Unlock()
 	if !ok {
 		return -1, datastore.ErrNotFound
 	}
@@ -164,9 +176,11 @@ type zzTxnDS struct{ *zzMemDS }
 
 func (d zzTxnDS) NewTransaction(_ context.Context, readOnly bool) (datastore.Txn, error) {
 	snap := map[string][]byte{}
+	d.mu.Lock()
 	for k, v := range d.m {
 		snap[k] = v
 	}
+	d.mu.Unlock()
 	return &zzTxn{d: d.zzMemDS, snap: snap}, nil
 }
 
